@@ -292,7 +292,20 @@ def search(ctx, mismatches, broken, prop_fail):
                 if w and ("f", m, a, b) not in seen:
                     seen.add(("f", m, a, b))
                     viol("algebra:FiniteBifieldElement", {"m": m, "a": a, "b": b, "c": c}, "GF(2^%d) a=%d b=%d c=%d: %s" % (m, a, b, c, w), ["fmul %d %d %d" % (P, a, b)])
-        elif verb in ("finv", "ftrace", "fpow", "fminpoly") or "m" in cfg:
+        elif verb == "fpow":
+            P, a, e = args
+            m = P.bit_length() - 1
+            F = A.FiniteBifield(m)
+            want, base, k = 1, a, e
+            while k:  # independent square-and-multiply on bit masks = a multiplied e times
+                if k & 1:
+                    want = o_fmul(P, want, base)
+                base = o_fmul(P, base, base)
+                k >>= 1
+            got = (F(a) ** e).value
+            if got != want:
+                viol("algebra:FiniteBifieldElement.__pow__", {"m": m, "a": a, "e": e}, "GF(2^%d): %d ** %d = %d, but the e-fold product is %d" % (m, a, e, got, want), ["fpow %d %d %d" % (P, a, e)])
+        elif verb in ("finv", "ftrace", "fminpoly") or "m" in cfg:
             m = cfg.get("m") or (args[1] if verb in ("finv", "ftrace", "fminpoly") else args[0].bit_length() - 1)
             a = cfg.get("a") if "a" in cfg else (args[2] if verb in ("finv", "ftrace", "fminpoly") else args[1])
             for b in (1, 2, rng.randrange(1 << m)):
